@@ -497,7 +497,7 @@ func (c *DefaultCtx) Format(handlers ...ResFmt) error {
 	c.Vary(HeaderAccept)
 
 	if c.Get(HeaderAccept) == "" {
-		c.Response().Header.SetContentType(handlers[0].MediaType)
+		c.Response().Header.SetContentType(sanitizeHeaderValue(handlers[0].MediaType))
 		return handlers[0].Handler(c)
 	}
 
@@ -525,7 +525,7 @@ func (c *DefaultCtx) Format(handlers ...ResFmt) error {
 
 	for _, h := range handlers {
 		if h.MediaType == accept {
-			c.Response().Header.SetContentType(h.MediaType)
+			c.Response().Header.SetContentType(sanitizeHeaderValue(h.MediaType))
 			return h.Handler(c)
 		}
 	}
@@ -880,7 +880,7 @@ func (c *DefaultCtx) JSON(data any, ctype ...string) error {
 	}
 	c.fasthttp.Response.SetBodyRaw(raw)
 	if len(ctype) > 0 {
-		c.fasthttp.Response.Header.SetContentType(ctype[0])
+		c.fasthttp.Response.Header.SetContentType(sanitizeHeaderValue(ctype[0]))
 	} else {
 		c.fasthttp.Response.Header.SetContentType(MIMEApplicationJSON)
 	}
@@ -898,7 +898,7 @@ func (c *DefaultCtx) CBOR(data any, ctype ...string) error {
 	}
 	c.fasthttp.Response.SetBodyRaw(raw)
 	if len(ctype) > 0 {
-		c.fasthttp.Response.Header.SetContentType(ctype[0])
+		c.fasthttp.Response.Header.SetContentType(sanitizeHeaderValue(ctype[0]))
 	} else {
 		c.fasthttp.Response.Header.SetContentType(MIMEApplicationCBOR)
 	}
@@ -1810,7 +1810,7 @@ func (c *DefaultCtx) String() string {
 // Type sets the Content-Type HTTP header to the MIME type specified by the file extension.
 func (c *DefaultCtx) Type(extension string, charset ...string) Ctx {
 	if len(charset) > 0 {
-		c.fasthttp.Response.Header.SetContentType(utils.GetMIME(extension) + "; charset=" + charset[0])
+		c.fasthttp.Response.Header.SetContentType(utils.GetMIME(extension) + "; charset=" + sanitizeHeaderValue(charset[0]))
 	} else {
 		c.fasthttp.Response.Header.SetContentType(utils.GetMIME(extension))
 	}
